@@ -207,3 +207,32 @@ def curie_probes(rng, recs, delim, k=10):
             s = p + delim[:-1] if len(delim) > 1 else p + " "
         out.append(s)
     return out
+
+
+def build_steps(rng, recs, delim, queries, slot=0, p_incremental=0.35):
+    """Steps that build converter `slot` from `recs` and then run `queries` on it.
+
+    With probability `p_incremental` the converter is built the way a long-lived application does it: from a
+    part of the records, *queried* (a sample of the same queries, so that any lazily built or memoised lookup
+    state exists), then extended with add_record / add_prefix, and only then asked the real queries.  The
+    properties quantify over every converter, however it came to hold its records."""
+    from .common import q as _q
+    header = [_q(slot, "records"), _q(slot, "delimiter")]
+    d = [ord(ch) for ch in delim]
+    if len(recs) < 2 or rng.random() >= p_incremental:
+        return [{"op": "init", "dst": slot, "records": recs, "delim": d}] + header + queries, "init"
+    k = rng.randint(1, len(recs) - 1)
+    order = list(recs)
+    rng.shuffle(order)
+    first, rest = order[:k], order[k:]
+    warm = [dict(st) for st in rng.sample(queries, min(len(queries), 6))] if queries else []
+    warm += [_q(slot, "get_record", uncps(first[0]["p"])), _q(slot, "expand_pair_all", uncps(first[0]["p"]), "1")]
+    steps = [{"op": "init", "dst": slot, "records": first, "delim": d}] + warm
+    for r in rest:
+        if r.get("pat") is None and rng.random() < 0.5:
+            steps.append({"op": "add_prefix", "c": slot, "p": r["p"], "u": r["u"], "ps": r["ps"], "us": r["us"]})
+        else:
+            steps.append({"op": "add_record", "c": slot, "record": r})
+        if rng.random() < 0.3 and queries:
+            steps.append(dict(rng.choice(queries)))
+    return steps + header + queries, "incremental"
